@@ -34,6 +34,7 @@ func init() {
 		Batch:            4,
 		Workers:          8,
 		RaceEvery:        3,
+		BatchTimeout:     45 * time.Minute,
 		PanicIsViolation: true,
 		RaceSig:          storageRaceSig,
 		Run:              runC03,
@@ -189,6 +190,11 @@ func runC03(c *fw.Ctx) {
 		}
 		flushesBetween := 0
 		ok := true
+		wait := quiesceTimeout
+		if s.pressure {
+			// every insert forces a GC and a flush: slow, and much slower on a loaded machine
+			wait = 8 * time.Minute
+		}
 		for i := range points {
 			if s.forcedAt[i] || (s.everyK > 0 && i > 0 && i%s.everyK == 0) {
 				if !db.WaitCaughtUp(quiesceTimeout) {
@@ -199,7 +205,7 @@ func runC03(c *fw.Ctx) {
 				flushesBetween++
 			}
 			if s.reopenAt[i] {
-				if !db.WaitCaughtUp(quiesceTimeout) {
+				if !db.WaitCaughtUp(wait) {
 					ok = false
 					break
 				}
@@ -219,11 +225,11 @@ func runC03(c *fw.Ctx) {
 				time.Sleep(time.Duration(1+r.Intn(4)) * time.Millisecond)
 			}
 		}
-		if ok && !db.WaitCaughtUp(quiesceTimeout) {
+		if ok && !db.WaitCaughtUp(wait) {
 			ok = false
 		}
 		if !ok {
-			db.Close()
+			db.CloseBounded(20 * time.Second)
 			if !c.Violated() {
 				c.Inconclusive("schedule %s: ingestion did not catch up", s.name)
 			}
@@ -287,9 +293,9 @@ func runC03(c *fw.Ctx) {
 					c.Violate("reopen", "schedule %s: reopen failed: %v", s.name, err)
 					break
 				}
-				if !db.WaitCaughtUp(quiesceTimeout) {
+				if !db.WaitCaughtUp(wait) {
 					c.Inconclusive("schedule %s: ingestion did not catch up after reopen", s.name)
-					db.Close()
+					db.CloseBounded(20 * time.Second)
 					return
 				}
 			} else {
